@@ -44,6 +44,26 @@ Theorem C03_inner_never_gopanic : forall d spare,
 Proof. exact inner_never_gopanic. Qed.
 Print Assumptions C03_inner_never_gopanic.
 
+(* ---- (1b) the guest-range check on raw 64-bit register values (isReadable / isWriteable): an accepted non-empty range
+        lies inside the 32-bit address space without wrap-around and every page it touches passed the access test;
+        hence the output buffer R makes for a halt is at most the address space ---- *)
+Theorem C03_range_check_sound : forall acc start off, range_ok_go true acc start off = true -> (0 < off)%N ->
+  (start + off <= 4294967296)%N /\ forall p, (start / 4096 <= p <= (start + off - 1) / 4096)%N -> acc p = true.
+Proof. exact range_ok_sound. Qed.
+Print Assumptions C03_range_check_sound.
+
+Theorem C03_halt_output_bounded : forall acc start len, (halt_out_len true acc start len <= 4294967296)%N.
+Proof. exact halt_out_len_bound. Qed.
+Print Assumptions C03_halt_output_bounded.
+
+(* the same check written as start+offset > 2^32 (uint64 sum) accepts (2^63+4096, 2^63) with no page mapped: a 2^63-byte make *)
+Theorem C03_range_wrap_refuted : exists start off,
+  range_ok_go false (fun _ => false) start off = true /\
+  halt_out_len false (fun _ => false) start off = 9223372036854775808%N /\
+  range_ok_go true (fun _ => false) start off = false.
+Proof. exact range_wrap_refuted. Qed.
+Print Assumptions C03_range_wrap_refuted.
+
 (* ---- the same statement is FALSE of the code as found: four witnesses, each replayed on the Go code ---- *)
 (* data[:instSize] without a length check: blob 00 00 32 01 *)
 Theorem C03_code_length_refuted : exists d, deblob_go true false (mk_slice d []) = GoPanic.
@@ -141,6 +161,17 @@ Proof. vm_compute. reflexivity. Qed.
 Example C03_ex_loop_stops :
   match run 7 (mkprog [40; 0]%Z [true; false]) 0%Z (st0 5) with
   | Some (OutOfGas, 0%Z, s) => gas s = 0%Z
+  | _ => False
+  end.
+Proof. vm_compute. reflexivity. Qed.
+(* the range check accepts a real range of the loaded program (its read-write data) and refuses wrapped ones *)
+Example C03_ex_range :
+  match single_initializer_go true (mk_slice w_std []) 9 with
+  | Ok io =>
+    let acc := fun p => m_has {| m_iv := io_iv io; m_made := 0 |} p in
+    (range_ok_go true acc 196608 8192, range_ok_go true acc 196608 8193,
+     range_ok_go true acc 18446744073709551615 2, range_ok_go true acc 12288 18446744073709547520)
+    = (true, false, false, false)
   | _ => False
   end.
 Proof. vm_compute. reflexivity. Qed.
